@@ -103,7 +103,8 @@ public:
       if (size > _capacity)
         _capacity = size;
       _capacity |= 0x03;
-      T* newData = (T*)new char[sizeof(T) * _capacity];
+      // a capacity whose byte size does not fit into usize must fail like any other oversized request
+      T* newData = (T*)new char[_capacity > (usize)-1 / sizeof(T) ? (usize)-1 : sizeof(T) * _capacity];
       T* dest = newData;
       if(_begin.item)
       {
